@@ -80,7 +80,7 @@ func refNext(lines []string, pos int) (*refPara, string, int) {
 }
 
 var lineKinds = []string{
-	"Alpha: one\n", "Beta:two\n", "Gamma : x:y  \n", "Alpha: again\n", "Empty:\n", "CR: v\r\n",
+	"Alpha: one\n", "X-Cnf_Visible.Pkg+name:two\n", "Gamma : x:y  \n", "Alpha: again\n", "Empty:\n", "CR: v\r\n",
 	" cont\n", " .\n", "\tTabbed\n", "   indented  \n", "  .\n", " \n", " crcont\r\n", " . \n",
 	"\n", "\r\n", "# comment\n", "NoColonHere\n", " # text of a folded value\n",
 }
